@@ -29,19 +29,21 @@ run_seq() {
 }
 
 case "$ID" in
-  C01|C03|C04|C05|C06|C08|C20)
+  C01|C02|C03|C04|C05|C06|C08|C20)
     B=$(scripts/e1bin.sh) || exit 2
     export VERIF_E1NATIVE=$B/e1native VERIF_REWRITES=$B/rewrites.json VERIF_TREE_HASH=$(basename $B)
     lid=$(echo $ID | tr A-Z a-z)
     if [ "${EXTRA[0]}" = "--replay" ]; then
       if grep -q '"engine": "E1"' "${EXTRA[1]}"; then exec $B/e1 replay "${EXTRA[1]}"; fi
-      VERIF_PART=e2 run_seq ${lid}e2 "${EXTRA[@]}"; exit $?
+      PARTDIR=${lid}e2; [ -d seq/$PARTDIR ] || PARTDIR=$lid
+      VERIF_PART=e2 run_seq $PARTDIR "${EXTRA[@]}"; exit $?
     fi
     # a property may have a bounded-exhaustive content part (engine E2) next to its E1 part;
     # it writes evidence/parts/<ID>.e2.json, which the E1 run merges into the evidence file
     rm -f evidence/parts/$ID.e2.json
-    if [ -d seq/${lid}e2 ]; then
-      VERIF_PART=e2 run_seq ${lid}e2; rc=$?
+    PARTDIR=${lid}e2; [ -d seq/$PARTDIR ] || PARTDIR=$lid
+    if [ -d seq/$PARTDIR ]; then
+      VERIF_PART=e2 run_seq $PARTDIR; rc=$?
       [ $rc -le 1 ] || exit $rc
     fi
     exec $B/e1 run $ID --tier $TIER ;;
